@@ -555,13 +555,27 @@ STD_CONFIGS = [
                               "y": {"reparameterisation": "rescaletobounds", "update_bounds": True}}),
     dict(name="time-reset", checkpoint_on_iteration=False, checkpoint_interval=3, maximum_uninformed=25,
          training_frequency=30, cooldown=10, reset_weights=2, checkpoint_on_training=True, memory=20),
+    # the sampler is stored by a user CALLBACK instead of nessai's own file write (documented option checkpoint_callback):
+    # the accounts must be kept exactly as on the default path (seeded change C12-eB: timer re-armed on the file path only)
+    dict(name="iter6-callback", checkpoint_on_iteration=True, checkpoint_interval=6, maximum_uninformed=40,
+         training_frequency=40, cooldown=20, checkpoint_callback="file"),
 ]
+
+
+def _file_callback(sampler):
+    """a checkpoint callback that does what the default path does: pickle the sampler to its resume file"""
+    import pickle
+    import nessai.samplers.base as sb
+    sb.safe_file_dump(sampler, sampler.resume_file, pickle, save_existing=True)
+
 
 
 def std_kwargs(cfg, seed):
     import copy
     kw = copy.deepcopy(STD_BASE)          # nessai writes into the flow_config dictionary it is given
     kw.update({k: v for k, v in cfg.items() if k not in ("name", "vectorised")})
+    if kw.get("checkpoint_callback") == "file":
+        kw["checkpoint_callback"] = _file_callback
     kw["seed"] = seed
     return kw
 
@@ -837,8 +851,11 @@ def ckpt_in_loop(ops):
 HANDLER_KEY = "BaseNestedSampler.checkpoint:between-resume-and-loop-entry:down-time-counted"
 
 
-def chain(ctx, kind, cfg, seed, kills, downs, handler_ckpt=False):
-    """handler_ckpt: after every resume, before the loop is entered, call `ns.checkpoint()` as the signal handler
+def chain(ctx, kind, cfg, seed, kills, downs, handler_ckpt=False, train_signal=None):
+    """train_signal=k: in the first launch a signal arrives while the k-th flow training is running — the handler checkpoints
+    (FlowSampler.safe_exit) and the process exits; the resumed run redoes the interrupted training (seeded change C12-eA: the
+    training counter advanced before the training).
+    handler_ckpt: after every resume, before the loop is entered, call `ns.checkpoint()` as the signal handler
     (FlowSampler.safe_exit -> terminate_run) does"""
     import torch
     case = {"kind": f"chain-{kind}", "cfg": cfg, "seed": seed, "kills": kills, "downs": downs, "handler_ckpt": handler_ckpt}
@@ -860,6 +877,8 @@ def chain(ctx, kind, cfg, seed, kills, downs, handler_ckpt=False):
             written.clear()
             written.update(store_image(obj), iteration=int(obj.iteration))
 
+    trainings = {"n": 0, "armed": train_signal is not None, "ns": None}
+
     def launch(kill_at, attempt):
         rec.launch(kill_at)
         if steps_rec is not None:
@@ -867,6 +886,7 @@ def chain(ctx, kind, cfg, seed, kills, downs, handler_ckpt=False):
             segments.append(steps_rec.steps)
         model = instrument(base_model(kind, cfg, seed), rec)
         fs = build_sampler(kind, cfg, seed, model, tmp, resume=True, time_trigger=time_trigger)
+        trainings["ns"] = fs.ns
         rec.observe("launch", fs.ns)
         if handler_ckpt and fs.ns.iteration > 0:
             fs.ns.checkpoint()          # what FlowSampler.terminate_run does on SIGTERM/SIGINT/SIGALRM
@@ -878,10 +898,22 @@ def chain(ctx, kind, cfg, seed, kills, downs, handler_ckpt=False):
         rec.count = False
         return fs
 
+    from nessai.flowmodel.base import FlowModel as _FM
+    orig_train = _FM.train
+
+    def train_with_signal(self_, *a, **k):
+        trainings["n"] += 1
+        if trainings["armed"] and trainings["n"] == train_signal and trainings["ns"] is not None:
+            trainings["armed"] = False
+            trainings["ns"].checkpoint()      # the signal handler's checkpoint, taken while the flow is being trained
+            raise Kill()
+        return orig_train(self_, *a, **k)
+
     final = None
     survived = 0
     try:
-        with LogicalTime(), flows_ctx(cfg), DumpHook(hook):
+        with LogicalTime(), flows_ctx(cfg), DumpHook(hook), \
+                (mock.patch.object(_FM, "train", train_with_signal) if (kind == "std" and train_signal is not None) else NoFlows()):
             if kind == "std":
                 from . import c01
                 steps_rec = c01.Recorder(c01._nessai())
@@ -1480,6 +1512,9 @@ def correspond(ctx):
             # the first kill lands well inside the run, after several checkpoints
             kills = [int(total * ctx.rng.uniform(0.35, 0.75))] + gen_kills(ctx, "std", cfg, k % 3)[0]
             chain(ctx, "std", cfg, base + 400 + k, kills, [ctx.rng.choice([7, 60, 1000]) for _ in kills], handler_ckpt=True)
+        # a signal during the first / second flow training, then a resume
+        for k, cfg in enumerate(STD_CONFIGS[: ctx.scale(2, 4)]):
+            chain(ctx, "std", cfg, base + 450 + k, [10 ** 9], [ctx.rng.choice([7, 60])], train_signal=1 + k % 2)
         # ---- FlowProposal.resume with a mask that is not a list
         mask_case(ctx, "ndarray")
         mask_case(ctx, "list")
